@@ -21,18 +21,19 @@ import Plenc.Build
 
   Restrictions (the driver must skip what is outside; the model says so itself
   by answering `Out.unsupported`):
-  * the quoted VALUE of a `key:"value"` pair may contain printable ASCII
-    (0x20..0x7e) and the escapes `\"` and `\\`.  A raw newline is a definite
-    `errTagValueSyntax` (strconv.Unquote rejects it) and is modelled.  Any other
-    backslash escape (`\t`, `\x41`, `é`, `\'`, an invalid escape …), any
-    other control character, DEL and any non-ASCII rune inside a value give
-    `unsupported`: `strconv.Unquote` may or may not accept them and `%q`
-    (`strconv.Quote`) re-escapes some of them, which is not modelled.
-    KEYS are unrestricted (they are printed back with `%s`).
+  * the quoted VALUE of a `key:"value"` pair may contain any rune literally and
+    the escapes `\"` and `\\`.  A raw newline is a definite `errTagValueSyntax`
+    (strconv.Unquote rejects it) and is modelled.  Any other backslash escape
+    (`\t`, `\x41`, `\'`, an invalid escape …) gives `unsupported`:
+    `strconv.Unquote` may or may not accept it.  KEYS are unrestricted.
+    (The tool no longer prints existing tags back, so `%q` only ever sees the
+    plenc tag's own `-` or decimal number; `Tags.render` is exact for values of
+    printable ASCII.)
   * the tag literal of a field is a back-quoted raw string: `Field.rawTag` is
     the text between the back quotes, as delivered by go/scanner (which has
-    already removed carriage returns, so `strconv.Unquote` returns it verbatim).
-    Interpreted (double-quoted) tag literals are not modelled.
+    already removed carriage returns, so `strconv.Unquote` returns it verbatim;
+    it contains no back quote).  Interpreted (double-quoted) tag literals are
+    not modelled.
   * Go's `int` is 64 bits.
 -/
 namespace Plenctag
@@ -46,6 +47,7 @@ inductive Err where
   | tagValueSyntax   -- structtag.errTagValueSyntax "bad syntax for struct tag value"
   | atoi             -- strconv.Atoi failed on an existing plenc tag's name
   | multiName        -- `X, Y T` without a plenc tag
+  | noIndexLeft      -- a field needs a number but `maxPlenc >= maxFieldIndex`
 deriving DecidableEq, Repr
 
 /-- `Res` of the codec model plus the error class and the `unsupported` outcome
@@ -88,7 +90,7 @@ abbrev Tags := List Tag
 def Tags.get (ts : Tags) (key : String) : Option Tag :=
   ts.find? (fun t => t.key == key)
 
-/-- `(*Tags).Set`: every entry with the key is replaced in place; appended when
+/-- `(*Tags).Set` (no longer used by the tool, kept for the library model): every entry with the key is replaced in place; appended when
 there is none; nothing happens (errKeyNotSet) for the empty key. -/
 def Tags.set (ts : Tags) (t : Tag) : Tags :=
   if t.key == "" then ts
@@ -147,10 +149,6 @@ def Tags.render (ts : Tags) : String := String.ofList (renderChars ts)
 def keyChar (c : Char) : Bool :=
   decide (32 < c.toNat) && c != ':' && c != '"' && c.toNat != 0x7f
 
-/-- a rune that may stand unescaped in a value and that `%q` prints as itself. -/
-def plainValChar (c : Char) : Bool :=
-  decide (32 ≤ c.toNat) && decide (c.toNat ≤ 126) && c != '"' && c != '\\'
-
 /-- the quoted-string scan of `Parse`/`Lookup`, started after the opening
 quote: `for i < len && tag[i] != '"' { if tag[i] == '\\' { i++ }; i++ }`, error
 when the end is reached.  Result: the text between the quotes, still escaped,
@@ -185,8 +183,7 @@ def unq : Bool → List Char → Unq
   | false, c :: r =>
     if c = '\\' then unq true r
     else if c = '\n' then .bad
-    else if plainValChar c then (unq false r).cons c
-    else .unsupported
+    else (unq false r).cons c
 
 def unquoteBody (cs : List Char) : Unq := unq false cs
 
@@ -358,9 +355,8 @@ def plencValue (raw : String) : Out Int :=
 def itoa (v : Int) : String :=
   if v < 0 then "-" ++ Nat.repr (-v).toNat else Nat.repr v.toNat
 
-/-- `maxPlenc++` on a 64-bit int. -/
-def incr (m : Int) : Int :=
-  if m + 1 ≥ 2 ^ 63 then m + 1 - 2 ^ 64 else m + 1
+/-- main.go `maxFieldIndex = 1<<29 - 1`, the largest protobuf field number. -/
+def maxFieldIndex : Int := 536870911
 
 /-- one step of the first loop of `rewrite`. -/
 def maxStep (m : Int) (f : Field) : Int :=
@@ -409,8 +405,8 @@ def status1 (f : Field) : Status :=
   | none => .fine
   | some raw => (plencValue raw).status
 
-/-- what the body of the second loop decides for a field (this does not depend
-on `maxPlenc`). -/
+/-- what the body of the second loop decides for a field, up to the question
+whether a number is left (only that depends on `maxPlenc`). -/
 inductive Act where
   | skip                                  -- `continue`, nothing recorded
   | stop (s : Status)                     -- `recordError(...); continue`, or worse
@@ -445,22 +441,62 @@ def Act.status : Act → Status
 
 def plencTag (name : String) : Tag := ⟨"plenc", name, []⟩
 
-/-- `tags.Set(&tag); f.Tag.Value = quote(tags.String())` -/
-def setTag (f : Field) (tags : Tags) (name : String) : Field :=
-  { f with rawTag := some (Tags.render (Tags.set tags (plencTag name))) }
+/-- `unicode.IsSpace`, which `strings.TrimSpace` uses. -/
+def goIsSpace (c : Char) : Bool :=
+  let n := c.toNat
+  (decide (9 ≤ n) && decide (n ≤ 13)) || n == 32 || n == 0x85 || n == 0xA0 || n == 0x1680 ||
+  (decide (0x2000 ≤ n) && decide (n ≤ 0x200a)) || n == 0x2028 || n == 0x2029 || n == 0x202f ||
+  n == 0x205f || n == 0x3000
 
-/-- the second loop, started with `maxPlenc = m`. -/
+/-- `strings.TrimRight(s, " ")` -/
+def trimRightSpaces (cs : List Char) : List Char :=
+  (cs.reverse.dropWhile (fun c => c = ' ')).reverse
+
+/-- main.go `appendTag(lit, add)` for a field without tag literal (`none`, the
+empty `ast.BasicLit{}`) or with a back-quoted one: the content of the new
+back-quoted literal.  The old text stays as it is, minus trailing spaces; the
+new tag follows after one space; a blank old text is dropped.  (The content of a
+raw string literal has no back quote and `add` has none, so the tool's fallback
+to `strconv.Quote` is not reached; `strconv.Unquote` of a raw string literal
+cannot fail.) -/
+def appendTag (lit : Option String) (add : String) : String :=
+  match lit with
+  | none => add
+  | some old =>
+    let o := trimRightSpaces old.toList
+    if o.all goIsSpace then add else String.ofList (o ++ ' ' :: add.toList)
+
+/-- `f.Tag.Value = appendTag(f.Tag.Value, tag.String())` with `tag = plenc:"name"` -/
+def setTag (f : Field) (name : String) : Field :=
+  { f with rawTag := some (appendTag f.rawTag (Tags.render [plencTag name])) }
+
+/-- the second loop, started with `maxPlenc = m`: the fields.  A field that
+needs a number when none is left is skipped (an error is recorded, see
+`status2`).  `maxPlenc++` cannot wrap: it only happens below `maxFieldIndex`. -/
 def pass2 (fl : Flags) : Int → List Field → List Field
   | _, [] => []
   | m, f :: r =>
     match classify fl f with
-    | .add tags true => setTag f tags "-" :: pass2 fl m r
-    | .add tags false => setTag f tags (itoa (incr m)) :: pass2 fl (incr m) r
+    | .add _ true => setTag f "-" :: pass2 fl m r
+    | .add _ false =>
+      if m ≥ maxFieldIndex then f :: pass2 fl m r
+      else setTag f (itoa (m + 1)) :: pass2 fl (m + 1) r
     | _ => f :: pass2 fl m r
+
+/-- the second loop: what is recorded, field by field. -/
+def status2 (fl : Flags) : Int → List Field → List Status
+  | _, [] => []
+  | m, f :: r =>
+    match classify fl f with
+    | .add _ true => .fine :: status2 fl m r
+    | .add _ false =>
+      if m ≥ maxFieldIndex then .failed .noIndexLeft :: status2 fl m r
+      else .fine :: status2 fl (m + 1) r
+    | a => a.status :: status2 fl m r
 
 /-- everything recorded for one struct: first loop, then second loop. -/
 def structStatus (fl : Flags) (fs : List Field) : Status :=
-  ((fs.map status1) ++ (fs.map fun f => (classify fl f).status)).foldl Status.merge .fine
+  ((fs.map status1) ++ status2 fl (maxPlenc fs) fs).foldl Status.merge .fine
 
 def Status.toOut {α} (a : α) : Status → Out α
   | .fine => .ok a
